@@ -145,3 +145,78 @@ def count_gate_dominates(prog, body, block, count_field, ev=None):
         seen.append("%s %s quorum%s" % (show(count), op2, " [dominates]" if dom else ""))
         ok = ok or dom
     return ok, seen
+
+
+def _leaf_names(term, out=None):
+    """names of the fields / parameters / captured variables a term is computed from directly (results of calls are opaque)"""
+    out = set() if out is None else out
+    t = strip(term)
+    k = t[0]
+    if k == "field":
+        out.add(t[2])
+    elif k == "param":
+        out.add(t[2])
+    elif k == "upvar":
+        out.add(t[1].split(".")[-1])
+    elif k in ("cast", "un"):
+        _leaf_names(t[1] if k == "cast" else t[2], out)
+    elif k == "bin":
+        _leaf_names(t[2], out)
+        _leaf_names(t[3], out)
+    elif k == "phi":
+        for a in t[1]:
+            _leaf_names(a, out)
+    elif k in ("variant",):
+        _leaf_names(t[1], out)
+    return out
+
+
+def check_role_args(chk, prog, rule, crates=("sierradb_cluster",)):
+    """ROLE BINDING of the quorum inputs: a parameter named `replication_factor` receives a replication factor itself (a field / parameter /
+    captured variable of that name, a constant, or the min with a node count) - never a value the quorum formula was already applied to;
+    a parameter named `required_quorum` receives rf/2+1 (or a value of that name); `confirmation_count` is never fed from a
+    replication-factor or quorum value. Returns the number of bindings looked at."""
+    set_prog(prog)
+    n = 0
+    for p, b in sorted(prog.bodies.items()):
+        if "/tests/" in b.file or not any(p.startswith(c + "::") for c in crates):
+            continue
+        ev = None
+        for bi, t in b.calls():
+            c = b.callee(t) or b.callee_decl(t) or ""
+            kb = prog.bodies.get(c)
+            if kb is None:
+                continue
+            pn = [kb.local_name(i + 1) for i in range(kb.argc)]
+            for i, name in enumerate(pn):
+                if name not in ("replication_factor", "required_quorum", "confirmation_count") or i >= len(t["args"]):
+                    continue
+                ev = ev or Ev(prog, b)
+                term = resolve_upvars(prog, ev.operand(t["args"][i], (bi, "T")), b)
+                st = strip(term)
+                while st[0] == "cast":
+                    st = strip(st[1])
+                names = _leaf_names(term)
+                n += 1
+                fn = b.root or b.path
+                what = "%s(.. %s ..)" % (c.rsplit("::", 1)[-1], name)
+                if name == "replication_factor":
+                    plain = is_rf_leaf(st) or st[0] == "const" or (st[0] == "call" and st[1].endswith("::min") and any(is_rf_leaf(strip(a)) for a in st[2]))
+                    if plain:
+                        chk.ok(rule, "%s <- %s" % (what, show(st)[:40]), b.where(t["line"]))
+                    else:
+                        chk.fail(rule, fn, "rf-arg-derived:%s" % c.rsplit("::", 1)[-1], "the `replication_factor` parameter of %s is given a computed value (%s), not the replication "
+                                 "factor: the callee applies rf/2+1 to it, so the quorum it enforces is not a majority of the replicas" % (c.rsplit("::", 1)[-1], show(st)[:70]), b, t["line"])
+                elif name == "required_quorum":
+                    good = quorum_shape(term) or "required_quorum" in names or (st[0] == "phi" and all(quorum_shape(a) for a in st[1]))
+                    if good:
+                        chk.ok(rule, "%s <- rf/2+1" % what, b.where(t["line"]))
+                    else:
+                        chk.fail(rule, fn, "quorum-arg-shape:%s" % c.rsplit("::", 1)[-1], "the `required_quorum` parameter of %s is given %s, which is not rf/2+1" % (c.rsplit("::", 1)[-1], show(st)[:70]), b, t["line"])
+                else:
+                    if names & {"replication_factor", "required_quorum"}:
+                        chk.fail(rule, fn, "count-arg-crossed:%s" % c.rsplit("::", 1)[-1], "the `confirmation_count` parameter of %s is computed from %s: a configuration value is "
+                                 "taken for the number of confirmations an event has" % (c.rsplit("::", 1)[-1], sorted(names & {"replication_factor", "required_quorum"})), b, t["line"])
+                    else:
+                        chk.ok(rule, "%s <- %s" % (what, show(st)[:40]), b.where(t["line"]))
+    return n
